@@ -71,8 +71,10 @@ Proof.
   - inversion H; reflexivity.
   - inversion H; reflexivity.
   - destruct (lookup fs p) as [[f|]|]; try discriminate. inversion H; subst. apply canon_names.
-  - inversion H; subst. cbn [canon_walk]. rewrite canon_entries_id; [reflexivity|].
-    destruct (isdir fs p); [apply ref_walk_shape|constructor].
+  - assert (Hw : Forall walk_shape (if isdir fs p then ref_walk 32 fs p top_down else [])).
+    { destruct (isdir fs p); [apply ref_walk_shape | constructor]. }
+    remember (if isdir fs p then ref_walk 32 fs p top_down else []) as w eqn:Ew. clear Ew.
+    injection H as <-. cbn [canon_walk]. rewrite (canon_entries_id w Hw). reflexivity.
   - destruct (lookup fs p) as [[f|]|]; try discriminate; inversion H; reflexivity.
   - exfalso. exact (Hnr p c eq_refl).
 Qed.
@@ -332,7 +334,7 @@ Lemma dfaith_list_of : forall kp F l, (forall x, In x l -> dfaith kp F x) -> dfa
 Proof. intros kp F l. induction l as [|z rest IH]; intro H; [exact I|]. split; [apply H; left; reflexivity|apply IH; intros; apply H; right; assumption]. Qed.
 
 Lemma dfaith_wfrec : forall kp F x, dfaith kp F x -> wfrec x.
-Proof. intros kp F x H. destruct x; try exact I. apply dfaith_SB in H. tauto. Qed.
+Proof. intros kp F x H. destruct x; try exact I. apply dfaith_SB in H. exact (proj1 H). Qed.
 
 (* ------------------------------------------------------------------ *)
 (* keys                                                               *)
